@@ -67,7 +67,12 @@ def generate_graph(
     )
 
     all_modules = _append_external_modules_to_module_list(
-        all_modules, exclude_external_libraries, imports, root_path, external_exclusions
+        all_modules,
+        exclude_external_libraries,
+        imports,
+        root_path,
+        external_exclusions,
+        internal_module_prefix,
     )
     return EvaluableArchitectureGraph(NetworkxGraph(all_modules, imports, level_limit))
 
@@ -78,6 +83,7 @@ def _append_external_modules_to_module_list(
     imports: Sequence[Import],
     root_path: Path,
     external_exclusions: tuple[str, ...],
+    internal_module_prefix: str | None = None,
 ) -> list[Node]:
     """External modules are not detected as modules when importing the source folder - but they will of course show up
     in the imports. To ensure that all edges in the graph have nodes attached, the external modules need to be added to
@@ -87,7 +93,9 @@ def _append_external_modules_to_module_list(
 
     internal_modules = set(all_modules)
 
-    all_modules = ImporteeModuleCalculator(root_path).calculate_importee_modules(
+    all_modules = ImporteeModuleCalculator(
+        root_path, internal_module_prefix
+    ).calculate_importee_modules(
         imports,
         all_modules,
     )
